@@ -698,6 +698,12 @@ func init() {
 		if withMerge {
 			kinds = append(kinds, "merge")
 		}
+		// a quarter of the runs also commits batches (a batch is one mutation of the prefix oracle): unsynced batch
+		// bytes followed by a rotation and a power loss are a C03 matter as much as a C04 one (seeded change S23)
+		withBatch := rng.Chance(0.25)
+		if withBatch {
+			kinds = append(kinds, "batch")
+		}
 		s := newSwarm(rng, kinds, 25)
 		s.W["put"] += 6
 		s.W["del"] += 1
@@ -707,6 +713,9 @@ func init() {
 		if withMerge {
 			s.W["merge"] = rng.Range(1, 2)
 			s.W["restart"] = 2
+		}
+		if withBatch {
+			s.W["batch"] = rng.Range(2, 5)
 		}
 		s.ValW[5] = min(s.ValW[5], 1)
 		if s.Steps > 25 {
